@@ -7,7 +7,7 @@ TODO = "check not built yet in this round; design in DESIGN.md section 5 (to be 
 CLAIMS = {
     "C14": {
         "text": "MqttTopics.tla: the contract is the set of live subscriptions with Matches / ValidFilter on character-level topic levels ('+' exactly one level, trailing '#' the remaining levels incl. the parent), "
-                "actions Subscribe (a rejected call may apply nothing), Unsubscribe, Disconnect, Takeover; invariants RouteExact, NoResidue, Others; MqttTopicsImpl.tla (the trie: insert, remove with pruning, "
+                "actions Subscribe (a rejected call may apply nothing), Unsubscribe, Disconnect, Takeover, Resume (a persistent session dropped and resumed keeps every filter with its own QoS); invariants RouteExact, NoResidue, Others; MqttTopicsImpl.tla (the trie: insert, remove with pruning, "
                 "findSubscribers frontier walk, session bookkeeping) is checked to refine it. TLC-generated histories are replayed in lock-step on a real TopicManager with real Session objects and on a real "
                 "Broker over loopback TCP with raw MQTT clients (10 probe topics after every operation); seeded random histories (4 clients, multi-byte and empty levels) are validated by TLC.",
         "note": "the zero-length filter/topic and $-topics are out of scope (MQTT-4.7.3-1; the paho decoder drops them); QoS of a routed client = QoS of one of its own matching subscriptions",
@@ -16,7 +16,7 @@ CLAIMS = {
     "C15": {
         "text": "MqttDelivery.tla: Must/May delivery sets at publish time (a QoS0 copy may be dropped only when the client's queue is full), pending / received / acked, client publish -> pipeline + PUBACK; "
                 "invariants Fanout, OnlyRouted, NoResendAfterAck, PendingSound, NothingForgotten, PubAckSameId and liveness Redeliver under weak fairness; a sendMsgToClient-shaped layer refines it in its "
-                "repaired form. TLC-simulated scenarios (subscriber populations with mixed QoS and overlapping filters, ack policies prompt/late/never/hold-first, publish bursts) run on a real Broker with raw "
+                "repaired form. TLC-simulated scenarios (subscriber populations with mixed QoS and overlapping filters, ack policies prompt/late/never/hold-first, publish bursts, session age = packet-id wrap, bystander connects/disconnects during fan-out, client publishes with id re-use / DUP=1 / per-packet pipeline verdict) run on a real Broker with raw "
                 "clients, every publish repeated K=30-40 times so that all visiting orders occur; negatives are decided at a barrier (no fan-out goroutine left + PING on every client), never by time-out; the "
                 "event log is validated by TLC.",
         "note": "retransmission clause read as: the session's oldest unacknowledged message is retransmitted until acked (the code resends the head of the pending queue); 10 s deadline extended to 50 s before reporting",
@@ -26,16 +26,16 @@ CLAIMS = {
         "text": "MqttSession.tla: one client id with owner, session existence, clean flag, subscriptions and per-connection status; implementation-shaped actions ConnectLocked, CloseAsync, Resub, Subscribe, "
                 "NetDrop, teardown steps T1-T4, WatchDelete, AdminDelete; invariants SuccessorIntact (Registered, SessionLive, Routed), ResumeOrDiscard, SupersededEndChangesNothing, AdminDeleteDisconnects - "
                 "all interleavings of three connections checked by TLC (675 k states) for the repaired teardown, refuted for teardown keyed by client id (the defect that was repaired). Schedules generated from "
-                "the contract (528 quick / 5 119 thorough, incl. resume chains) are executed on a real Broker with raw clients; the old connection's teardown is parked at two hook-free gates (will-message "
-                "pipeline call, blocking store delete); registration, session map, session content and actual delivery are observed after every step and validated by TLC.",
+                "the contract (528 quick / 5 119 thorough, incl. resume chains) are executed on a real Broker with raw clients; the old connection's teardown is parked at three hook-free gates (will-message "
+                "pipeline call, blocking store delete, Disconnect pipeline before removeClient); admin delete raced by the owner's SUBSCRIBE; registration, session map, session content and actual delivery are observed after every step and validated by TLC.",
         "note": "no delete notification in flight when a client connects (a stale notification overtaking a plain reconnect is outside the text); interleavings inside handleConn explored in the model only",
         "technique": "TLA+ spec + TLC model checking of all interleavings; schedule MBT on a real Broker with hook-free parking; TLC trace validation",
     },
     "C01": {
         "text": "TLA+ contract of HTTP routing (HttpRouter.tla: RouteSpec = lexicographically first entry whose host (port stripped), path (exact/prefix/regexp), method and header conditions match, "
                 "rewrite per mode, else 400 > 405 > 404, unknown backend 503; strings as character sequences, Strings.tla) and an implementation-shaped Search (two loops, two mismatch flags); TLC checks "
-                "the refinement for all rule sets over a template universe x 144 requests; TLC-generated behaviours are replayed on the real mux (cacheSize 0) and seeded random richer configurations "
-                "(longer paths, up to 4x4 entries, ports, IPv6 hosts) run on the real mux are judged by TLC against the contract.",
+                "the refinement for all rule sets over a template universe x 180 requests (incl. method tokens no configuration can list - PURGE, lower-case get - and decoded paths with a %XX sequence left); TLC-generated behaviours are replayed on the real mux (cacheSize 0) and seeded random richer configurations "
+                "(longer paths, up to 4x4 entries, sibling entries for one URL, ports, IPv6 hosts, non-standard request methods, percent sequences in paths and rewrite targets) run on the real mux are judged by TLC against the contract.",
         "note": "regexps of the family ^?lit(.*)?$? (what the code does with them: unanchored match, $1 replacement); in-process mux.ServeHTTP; HTTP/3 stubbed; acme-challenge bypass excluded",
         "technique": "TLA+ spec + TLC refinement check; model-based test generation (TLC -simulate) replayed on the real mux; TLC trace validation",
     },
@@ -43,31 +43,31 @@ CLAIMS = {
         "text": "IPFilter.tla: Denied as the contract, AllowImpl/chain as implementation layer, exhaustive at width 2 with two address families; every decision vector replayed on the real IPFilter and random "
                 "real v4/v6 addresses and CIDRs (bits computed independently with net/netip) validated by TLC. Mux level (HttpRouter.tla): (i) a client denied by the server, owning-rule or route filter "
                 "gets 4xx (403 if the route exists) and is never dispatched, (ii) a client allowed everywhere is routed as without filters, with and without the cache and after any history incl. evictions, "
-                "model-checked; TLC behaviours replayed on four real muxes (filters / filter-less twin x cache off / on); random traces (clients via RemoteAddr, X-Forwarded-For, X-Real-IP) validated by TLC.",
-        "note": "unambiguous client address only (realip's choice among several forwarded addresses is third-party); a client denied only by a filter of some other rule/entry may get 403 or be routed (reading iii)",
+                "(iii) a client denied only by the filter of a host-matching rule passed over on the way to its route reaches a backend with the cache and after any history iff it does on the cache-less server - model-checked; TLC behaviours replayed on four real muxes (filters / filter-less twin x cache off / on); random traces (clients via RemoteAddr, X-Forwarded-For, X-Real-IP) validated by TLC.",
+        "note": "unambiguous client address only (realip's choice among several forwarded addresses is third-party); a client denied only by a filter of a rule or entry the request does not match may get 403 or be routed",
         "technique": "TLA+ spec + TLC model checking (exhaustive decision table, refinement with cache and evictions); TLC vectors/behaviours replayed on the real code; TLC trace validation",
     },
     "C12": {
         "text": "HttpRouter.tla with the route cache: Request (hit branch, insertions), Evict (any entry at any time - a sound abstraction of ARC), Purge; property Transparent: every outcome with the cache equals "
                 "the cache-less reference, for every history; TLC proves it for the repaired cache design and refutes it for the pinned one (four defect classes, all reproduced on the real mux and repaired). "
-                "TLC-generated histories (requests biased towards key neighbours: same key, colliding split, other host spelling) and random 20-200-request traces run on twin real muxes (cacheSize 1, 2, 3, 64 vs 0) "
+                "TLC-generated histories (requests biased towards key neighbours: same key, colliding split, other host spelling, other method only; focus universes with method-restricted / header-conditioned / unrestricted sibling entries for one URL) and random 20-200-request traces run on twin real muxes (cacheSize 1, 2, 3, 64 vs 0) "
                 "and are judged against TLC's reference.",
         "note": "ARC abstracted to arbitrary eviction; if the cache-less mux itself departs from the reference the run is inconclusive (that is C01), not a C12 violation",
         "technique": "TLA+ spec + TLC model checking; model-based histories (TLC -simulate) replayed on twin real muxes; TLC trace validation",
     },
     "C18": {
-        "text": "TLA+ contract of the cluster lock (ClusterMutexContract) and an implementation-shaped model of mutex.go over etcd's lock recipe (key per member lease, per-handle local lock, time-outs): TLC checks "
+        "text": "TLA+ contract of the cluster lock (ClusterMutexContract) and an implementation-shaped model of mutex.go over etcd's lock recipe (key per member lease generation, per-object local lock, time-outs, lease re-grant after a failed keep-alive with the session kept): TLC checks "
                 "Mutex, NoResidue, termination under fairness and refinement. TLA+ contract of admin-API mutations (atomic, gap-free versions, 409/400, refusals modify nothing); a per-etcd-operation model "
-                "refines it under the lock (and not without it). TLC-generated request histories are replayed on real api.Servers of two members on an embedded etcd; recorded concurrent Lock/Unlock histories "
-                "(2-3 members, shared handles, injected etcd latency, time-outs) and concurrent admin-API histories are validated by TLC as linearisable with the versions pinned.",
-        "note": "etcd's lock recipe and leases trusted; lease expiry while holding not reproduced on the code; mock supervisor with two test kinds; 5xx replies admitted as no-ops",
+                "refines it under the lock (not without it, nor with a prefix delete over nested object names sv < svc < svc-canary, which generator, trace and harness use). TLC-generated request histories are replayed on real api.Servers of two members on an embedded etcd; recorded concurrent Lock/Unlock histories "
+                "(2-3 members plus a member whose lease keep-alive is made to fail while it holds the lock, handles obtained per call, injected etcd latency, time-outs) and concurrent admin-API histories are validated by TLC as linearisable with the versions pinned.",
+        "note": "etcd's lock recipe and leases trusted; lease expiry/revocation while holding not reproduced; failed keep-alive (re-grant) reproduced; mock supervisor with two test kinds; 5xx replies admitted as no-ops",
         "technique": "TLA+ spec + TLC model checking (refinement, liveness); model-based tests (TLC -simulate) on real servers; TLC trace validation (linearisation search)",
     },
     "C19": {
         "text": "TLA+ model of syncer.run (first pull, watch pull, ticker pull, compare, blocking send, cancelled watch, server restart): TLC checks RealStates, Monotone, Distinct, FirstIsCurrent and Converges as a "
                 "temporal property under fairness (violated without the ticker). Recorded histories of real syncers (Sync, SyncRaw, SyncPrefix, SyncRawPrefix; fast, slow and stalling consumers) on an embedded "
                 "etcd with server restarts and compaction-cancelled watches are validated by TLC against the contract; the store history is rebuilt from the writer's inv/ret events; convergence is checked "
-                "as a bounded-deadline claim.",
+                "as a bounded-deadline claim; exactness and atomicity of the pull are model parameters (a wider pull violates Distinct, an unpinned two-page pull violates RealStates); histories include a sibling key having the watched key as name prefix and 1300-key prefixes with never-repeated values and back-to-back multi-key transactions.",
         "note": "the consumer's view starts empty (an initially empty prefix needs no delivery); 40 s convergence deadline at a 200 ms pull interval; no writes while the server is down; etcd reads atomic",
         "technique": "TLA+ spec + TLC model checking incl. liveness; TLC trace validation of recorded executions",
     },
@@ -75,8 +75,8 @@ CLAIMS = {
         "text": "TLA+ contract of a run-time changeable connection cap (specs/ConnCapContract.tla) and implementation-shaped model of x/sync's FIFO weighted semaphore, asynchronous SetMaxCount, LimitListener "
                 "acceptor and release-once close (specs/ConnCap.tla), model-checked; refinement shown for the ordered-tuner code and refuted for unordered tuners (the defect that was repaired). TLC schedules "
                 "executed on the real LimitListener and Semaphore with the background adjustments ordered through the sem.resize gate (hook H1); concurrent histories of the real Semaphore, LimitListener and "
-                "HTTPServer runtime (maxConnections changed by reload, raw clients, half-close) validated by TLC against the contract with a conservative open counter. MQTT half (specs/MqttConnCap*.tla): "
-                "connect / takeover / disconnect histories of a real Broker with raw clients validated by TLC (never more than maxAllowedConnection registered clients; refusals are server-unavailable).",
+                "HTTPServer runtime (maxConnections changed by reload, raw clients, half-close) validated by TLC against the contract with a conservative open counter; schedules and overlap cases include bursts of cap changes on a full server covering every sequence of call kinds (grow, shrink, shrink below usage, same value). MQTT half (specs/MqttConnCap*.tla): "
+                "connect / takeover / disconnect histories of a real Broker with raw clients validated by TLC (never more than maxAllowedConnection registered clients; refusals are server-unavailable; attempts parked in the Connect pipeline between the early check and registration).",
         "note": "a change counts as applied when SetMaxCount's done channel closes; at server level completion is assumed after a settle time and re-checked at 5x; HTTP/3 not covered; Go scheduler explored "
                 "by stress plus gate, not exhaustively",
         "technique": "TLA+ spec + TLC model checking (refinement); TLC-generated schedules replayed on the real code through a scheduling gate; TLC trace validation",
@@ -84,40 +84,40 @@ CLAIMS = {
     "C04": {
         "text": "TLA+ contract of the pool as load balancer (LoadBalance.tla: generations of the server list incl. discovery with static fallback, least-chosen rule for roundRobin, per-generation stickiness, "
                 "positive-weight rule, nil iff empty) model-checked with all clauses as invariants; an implementation-shaped layer (atomic.Value, fetch-add, hash mod n, weighted walk) is checked to refine it. "
-                "TLC-generated behaviours, random pools, concurrent selector/watcher histories (linearisation by TLC) and 8-goroutine bursts of the real Proxy are validated by TLC against the contract.",
-        "note": "discovery played by calling useService; stickiness per list generation; Go scheduler explored by barrier rounds and stress (+ -race in thorough), not exhaustively",
+                "TLC-generated behaviours (incl. requests held between the load of the pool's balancer and the choice across list replacements, and round-robin balancers that have already served 2^b-d selections, b <= 62), random pools, concurrent selector/watcher histories (linearisation by TLC) and 8-goroutine bursts (also across a power of two) of the real Proxy are validated by TLC against the contract; thorough tier: Apalache discharges the inductive fairness invariant of round robin for an unbounded number of selections (N = 2..5).",
+        "note": "discovery played by calling useService; stickiness per list generation; k < 2^63 (aged state obtained by advancing the balancer's verified free-running counter); Go scheduler explored by barrier rounds and stress (+ -race in thorough), not exhaustively",
         "technique": "TLA+ spec + TLC model checking + refinement; TLC -simulate MBT; TLC trace validation with linearisation search",
     },
     "C10": {
         "text": "TLA+ contract of one request through retry / time-out / breaker (Resilience.tla) model-checked; the ServerPool.handle layer is checked to refine it. Every TLC-enumerated scenario (policy x outcome "
-                "script x cancel point x stream x breaker x time-out) is run on the real Proxy with real policies and a scripted transport, and the recorded attempts, gaps, cancellation, final outcome and "
+                "script x cancel point x stream x breaker x time-out x deadline of the client's own context none / later / earlier than the pool time-out) is run on the real Proxy with real policies and a scripted transport, and the recorded attempts, gaps, cancellation, final outcome and "
                 "breaker records are validated by TLC.",
         "note": "real time is one-sided (lower bounds on gaps, attempt start vs recorded cancel time); mistimed scenarios are discarded; rejections are re-checked 3x slower before reporting",
         "technique": "TLA+ spec + TLC model checking + refinement; TLC scenario enumeration run on the real code; TLC trace validation",
     },
     "C06": {
         "text": "TLA+ contract of Validator.Handle over abstract credential records (specs/Validator.tla: Accept = every enabled method valid; single-mutation theorem; exp/nbf/iat against a clock; ETCD "
-                "credential snapshots), model-checked by TLC; every (configuration x record) vector is enumerated by TLC and concretised >= 3x on the real filter through wire format + httpprot.NewRequest + "
+                "credential snapshots; hot updates = new generation built with Inherit: JWT secret/algorithm rotated, access keys removed/re-keyed, Basic users changed, methods dropped/added; access-key classes incl. empty id / empty secret), model-checked by TLC; every (configuration x record) vector is enumerated by TLC and concretised >= 3x on the real filter through wire format + httpprot.NewRequest + "
                 "FetchPayload (independent HMAC JWT issuer; repository signer as client, mutated after signing; harness-written htpasswd / etcd snapshots); all logged cases are validated by TLC as a trace; "
                 "an implementation-shaped layer is checked to refine the contract.",
         "note": "MAC strength, golang-jwt and go-htpasswd trusted; signature TTL uses time.Now() so ages are chosen >= 20 min off the boundary; OAuth2, FILE-mode reload, Host default port and tab-padded "
-                "header values are outside; outcomes the text leaves open are free",
+                "header values are outside; a hot update is atomic for requests; outcomes the text leaves open are free",
         "technique": "TLA+ spec + TLC model checking; TLC vector enumeration (-dump) and -simulate behaviours replayed on the real code; TLC trace validation",
     },
     "C09": {
         "text": "TLA+ contract of the limiter (reservation table per refresh cycle; per-period release bound, wait <= timeout, immediate when spare, rejected only with a full horizon) with the (cycle, tokens) "
-                "arithmetic of acquirePermission / MultiRateLimiter as implementation-shaped layer refining it, model-checked; MQTT request+byte form as carried debt with the window bound; filter spec "
+                "arithmetic of acquirePermission / MultiRateLimiter as implementation-shaped layer refining it, model-checked; MQTT request+byte form as carried debt with the window bound; MultiRateLimiter with timeout > 0: wait bound; filter spec "
                 "(first matching rule, unmatched never limited, 429/rateLimited, unchanged rule keeps its limiter across Inherit incl. defaulted policies). TLC-generated behaviours replayed on the real "
                 "limiters/filter; seeded sequential, concurrent (linearisation) and MQTT histories of the real code validated by TLC.",
         "note": "virtual clock via ratelimiter.nowFunc; filter replay at the start of the first cycle (1 h period or measured < 8 ms) with cancelled request contexts; mqttproxy limiter clock moved via private "
-                "startTime with real-clock brackets; MultiRateLimiter claimed for timeout 0 only (the only way easegress builds it); Apalache inductive invariant is extra, not verdict-bearing",
+                "startTime with real-clock brackets; MultiRateLimiter: all clauses for timeout 0 (the only way easegress builds it); with timeout > 0 only the reply-level clause wait <= timeoutDuration is checked (the unchanged code can release more than L per period there: lead outside the quantifier); Apalache inductive invariant is extra, not verdict-bearing",
         "technique": "TLA+ spec + TLC model checking (refinement invariant); MBT via TLC -simulate replayed in lock-step; TLC trace validation incl. linearisation and interval search; Apalache inductive check (thorough)",
     },
     "C11": {
         "text": "TLA+ model of hot update (specs/HotUpdate.tla): mux instance generations with separate rules/options versions, namespace map, pipeline generation objects with per-filter state cells, and the "
                 "updater's Build/Store, Inherit/Close/Store, no-op apply, create/delete steps interleaved with request steps LoadInst/Route/GetHandler/RunFilter (in-flight Enter/Exit for Proxy). The clauses "
                 "Consistent, NoFailure, Available, Visibility, Isolation, Settled, NoOp are model-checked exhaustively at small bounds. TLC-generated schedules are replayed step by step on the real mux + "
-                "TrafficController + Pipelines + RateLimiter/Proxy, on the TrafficController alone, on bare filters, and on one-filter pipelines of every filter kind buildable offline. Stress histories of the "
+                "TrafficController + Pipelines + RateLimiter/Proxy, on the TrafficController alone, on bare filters, and on one-filter pipelines of every filter kind buildable offline. Pipeline generations are [filters version, resilience version] and updates change either or both; the configuration of the generation a request holds is observed on the real code (RateLimiter limit still enforced on the new generation after Close(prev); Proxy attempts = retry policy of the held generation) and compared with the invariants Configured / Limited. Stress histories of the "
                 "real mux/TrafficController/HTTPServer object, with concurrent requests against an updater, are validated by TLC against the model.",
         "note": "Inherit/Close shapes of stateful filters are observed on the real code and fed to the model; the harness stops requests and updates only at hook-free points; HTTP/3 is stubbed; Go scheduler "
                 "interleavings inside a step are explored by stress (+ -race in thorough), not exhaustively; WasmHost is not swept (build tag); the Kafka reproduction is timing-dependent",
@@ -127,8 +127,8 @@ CLAIMS = {
         "text": "TLA+ contract of the object life-cycle (specs/Lifecycle.tla: per snapshot and name exactly one Init / Inherit-from-live / Close, none when unchanged, Close+Init on kind change, live set = latest "
                 "snapshot, independent of panics) model-checked with every clause as invariant/action property; an implementation-shaped model of ObjectRegistry.applyConfig, watcher events and both handlers "
                 "(LifecycleImpl) is checked to refine it; all canonical TLC-generated snapshot sequences (<= 2 snapshots x 3 names exhaustively, sampled length 3, scripted panics) are replayed on a real "
-                "Supervisor / RawConfigTrafficController / TrafficController fed through the mocked syncer and compared per step; seeded bursty 20-30-snapshot histories with panicking callbacks are validated "
-                "by TLC against the contract.",
+                "Supervisor / RawConfigTrafficController / TrafficController fed through the mocked syncer and compared per step; seeded bursty 20-40-snapshot histories with panicking callbacks - bursts of 1-3 snapshots and bursts of 14-32 snapshots pushed while the watchers' handlers are held back by gated/slow callbacks (more outstanding events than the watcher channel buffers) - are validated "
+                "by TLC against the contract; the implementation model includes the bounded watcher channel (blocking send refines, dropping send rejected).",
         "note": "callbacks observed through test-only kinds (spec equality = ver); the syncer itself is C19; order Close(old)/Init(new) of a kind change left free; the real Pipeline kind's separate store only modelled",
         "technique": "TLA+ spec + TLC model checking (refinement); exhaustive model-based test generation (tlc -dump/-simulate) replayed on real code; TLC trace validation",
     },
@@ -136,7 +136,7 @@ CLAIMS = {
         "text": "TLA+ contract of pipeline flow execution and spec validation (specs/PipelineFlow_Contract.tla) plus an implementation-shaped model of Spec.Validate/ValidateJumpIf, reload, "
                 "HandleWithBeforeAfter and the doHandle loop (specs/PipelineFlow.tla); TLC checks the refinement and the property's clauses for all flows up to a bound x all result vectors; every "
                 "terminal state is exported and replayed on real Pipeline objects built through supervisor.NewSpec (Handle and HandleWithBeforeAfter) and on real GlobalFilter objects; TLC-simulated "
-                "longer flows are replayed too; seeded random larger configurations run on the real code are validated by TLC against the contract.",
+                "longer flows are replayed too; an exhaustive family of jumpIf keys placed everywhere relative to the kind's declared results (empty, case variant, prefix, extension, other kind's result; kinds with 0-3 results and a case-only pair) checks that exactly the declared results are accepted, also for GlobalFilter before/after specs; seeded random larger configurations run on the real code are validated by TLC against the contract.",
         "note": "test-only scripted filter kinds; node alias observed through the pipeline stats tag, namespace through the request the filter sees; an aliased END node may or may not be a jump target "
                 "(both readings admitted); no alias equals END; GlobalFilter sides given with an explicit flow",
         "technique": "TLA+ spec + TLC model checking (refinement of a declarative contract by an implementation-shaped layer); exhaustive model-based test generation (TLC -dump) and sampling (-simulate) replayed on the real code; TLC trace validation",
@@ -148,23 +148,23 @@ CLAIMS = {
                 "per kind, random deeper members); the Go harness renders each configuration to YAML, passes it through the admin API's validation (Supervisor.NewSpec / resilience.NewPolicy) and "
                 "drives accepted ones through the real object's life-cycle under recover(), logging every call; TLC validates every recorded life-cycle against the automaton with "
                 "NoPanicAfterAccept and RuleRejected evaluated on each observed state; violations are minimised to kind + field classes + call + top repository frame.",
-        "note": "one concrete value per class; request classes fixed (10 HTTP, 6 server, 2 MQTT, 4 policy); mocked cluster, local backends; KafkaMQTT/Kafka/RemoteFilter/CertExtractor validate-only; "
+        "note": "one concrete value per class; requests = 26 HTTP classes incl. 12 paths derived from the configured paths (bare / trailing slash / extra segments / case / percent-encoded / no boundary) and 4 signature-bearing requests, 18 real-socket classes for HTTPServer, 6 resilience scenarios incl. open -> half-open -> closed -> open; TLC reports (kind, class) coverage and the run is inconclusive if a listed class was not sent; mocked cluster, local backends; KafkaMQTT/Kafka/RemoteFilter/CertExtractor validate-only; "
                 "WasmHost, MQTT-session filters, registries, ACME, mesh, tracing, HTTP/3 out of scope; 'does not panic' is observed (recover / process crash attributed to the call in flight), not predicted",
         "technique": "TLA+ spec + TLC model checking; TLC as combinatorial generator (-dump / -simulate) of configurations driven on the real code; TLC trace validation of recorded life-cycles",
     },
     "C03": {
         "text": "TLA+ model of one HTTP exchange (specs/ProxyMsg*.tla): the contract is one predicate per clause of the property (percent-decoding and Go's URL escaping "
                 "modelled on byte sequences); an implementation-shaped layer has one operator per stage mux -> RequestAdaptor -> prepareRequest/cloneHeader -> transport -> "
-                "compress -> FetchPayload -> ResponseAdaptor -> write-out, including retries. TLC checks that the (repaired) model refines the contract over the full toggle "
+                "compress -> FetchPayload -> ResponseAdaptor -> write-out, including retries, a pool memory cache (sequences of 3 identical requests; hit or miss both admitted, the answer must stay the backend's and well-framed), backend responses that break off (no complete decodable success may reach the client) and server URLs with / without port (IPv4, bracketed IPv6). TLC checks that the (repaired) model refines the contract over the full toggle "
                 "product and that each defect left in violates it. TLC-enumerated scenarios (-dump) are run as real exchanges over loopback sockets (real mux.ServeHTTP and Pipeline, "
                 "raw TCP backends, hand-framed client) and TLC evaluates the contract on every recorded exchange.",
         "note": "path 'unchanged' = equal after percent-decoding, raw query byte-equal; hop-by-hop removal judged by the client's values; gzip and sha256 computed in the harness; "
-                "HTTP/2, HTTP/3, mirror pool, memory cache, mTLS, 204/304 and non-gzip encodings outside the claim",
+                "host names only with a port; a broken backend response is judged only for status < 400; HTTP/2, HTTP/3, mirror pool, mTLS, 204/304 and non-gzip encodings outside the claim",
         "technique": "TLA+ spec + TLC model checking; model-based test generation (TLC -dump) run over sockets on the real code; TLC trace evaluation of the recordings",
     },
     "C07": {
         "text": "Limit selection and FetchPayload as a TLA+ step machine (specs/ProxyMsgLimit.tla) refine the body-limit contract (ProxyMsgDefs part 4) for both readings of the 4MB default; "
-                "all scenarios (2 directions x limit pairs x declared/chunked/close-delimited x sizes L-1, L, L+1, 4L, streams, lying lengths) run over sockets with real 4MB+-1 and 16MiB bodies "
+                "all scenarios (2 directions x limit pairs x declared/chunked/close-delimited x sizes L-1, L, L+1, 4L, streams, lying lengths x route cache on/off with repeated identical requests (requests) x proxy compression on/off (responses)) run over sockets with real 4MB+-1 and 16MiB bodies "
                 "through the real mux and Proxy; TLC evaluates the contract on the recordings.",
         "note": "'4MB' read as the interval [4,000,000, 4,194,304]; a request with a lying Content-Length is recorded but not judged (not in the property text); explicit limits are scaled",
         "technique": "TLA+ spec + TLC model checking; model-based test generation (TLC -dump) run over sockets on the real code; TLC trace evaluation of the recordings",
